@@ -88,19 +88,26 @@ def indirect_kind(ins):
 
 def callback_param(prog, f, ins, depth=0):
     """an indirect call through a function-pointer parameter of a unit-internal helper, every call site of which passes a field
-    of a struct cbor_callbacks table (loaded there): the client's callback, invoked one level down.  Returns True / False"""
+    of a struct cbor_callbacks table (loaded there) - or its own such parameter, one more level down: the client's callback,
+    invoked by a helper.  Returns True / False"""
     v = strip_casts(getattr(ins, "callee_val", None))
-    if not (isinstance(v, Arg) and f.internal and depth < 3):
+    return isinstance(v, Arg) and _param_is_callback(prog, f, v.i, depth)
+
+
+def _param_is_callback(prog, f, i, depth):
+    if not (f.internal and depth < 4):
         return False
     sites = [(g, c) for g in prog.funcs.values() for c in g.calls(f.name)]
     if not sites:
         return False
     for g, c in sites:
-        a = strip_casts(c.operands[v.i]) if v.i < len(c.operands) else None
+        a = strip_casts(c.operands[i]) if i < len(c.operands) else None
         if isinstance(a, Inst) and a.op == "load":
             src = strip_casts(a.operands[0])
             if isinstance(src, Inst) and src.op == "getelementptr" and "cbor_callbacks" in src.d.get("src_type", ""):
                 continue
+        if isinstance(a, Arg) and g.name != f.name and _param_is_callback(prog, g, a.i, depth + 1):
+            continue
         return False
     return True
 
